@@ -6,6 +6,7 @@ import PW.Proofs.NoSignal
 import PW.Proofs.Adequacy
 import PW.Proofs.MeasureNoSignal
 import PW.Proofs.NoSignalN
+import PW.Proofs.NewSubsystem
 import Mathlib.Tactic.IntervalCases
 /-!
 # C20 — product spaces are joined only when needed; bystander blocks are untouched
@@ -153,6 +154,15 @@ theorem measurement_invisible_in_any_other_subsystems {R : Type} [CommRing R] [S
       = PW.Spec.reduceTo dims K ρ rc :=
   PW.Spec.reduceTo_measurement dims K q hq hqK ρ rc
 
+/-- **creating a subsystem does not disturb the others**: appending a new subsystem in the pure state `v`
+(how the specification machine registers every `Envelope()` / `CustomState()` a program creates) leaves the
+reduced state of all earlier subsystems as it was — `(Σ_i v_i·conj v_i) · ρ`, i.e. `ρ` for a normalised `v`. -/
+theorem new_subsystem_leaves_the_others_untouched {R : Type} [CommRing R] [StarRing R] (dims : List Nat) (d : Nat)
+    (v ρ : PW.Tensor R) (r c : List Nat) (hr : r.length = dims.length) (hc : c.length = dims.length) :
+    PW.Spec.reduceTo (dims ++ [d]) (List.range dims.length) (PW.Spec.tensorVec dims v ρ) (r ++ c)
+      = (∑ i ∈ Finset.range d, v [i] * PW.conj (v [i])) * ρ (r ++ c) :=
+  PW.Spec.reduceTo_tensorVec dims d v ρ r c hr hc
+
 end PW.Props.C20
 
 #print axioms PW.Props.C20.bystander_untouched_by_combine
@@ -176,3 +186,4 @@ end PW.Props.C20
 #print axioms PW.Props.C20.operation_invisible_in_any_other_subsystems
 #print axioms PW.Props.C20.channel_invisible_in_any_other_subsystems
 #print axioms PW.Props.C20.measurement_invisible_in_any_other_subsystems
+#print axioms PW.Props.C20.new_subsystem_leaves_the_others_untouched
